@@ -57,6 +57,8 @@ type run struct {
 	desc    tl.M
 	wg      sync.WaitGroup // peer goroutines
 	ids     map[uint64]int // request id -> small sequence number used in the trace
+	old     *world         // pivot runs: the state of the first pivot (values of either state may be written)
+	pivot   bool           // pivot run: no per-item events (two worlds), value checks only
 }
 
 // sid maps the syncer's random 64-bit request ids to small integers (caller holds mu).
@@ -72,6 +74,10 @@ func (x *run) sid(id uint64) int {
 }
 
 func (x *run) emit(ev tl.M) {
+	if op := ev["op"].(string); x.pivot && op != "pivotdone" {
+		x.sum.Count("pivot:" + op)
+		return
+	}
 	x.tr.Emit(ev)
 	x.sum.Count(ev["op"].(string))
 }
@@ -128,6 +134,11 @@ func (x *run) observe(k, v []byte) {
 		h := common.BytesToHash(k[1:])
 		a, ok := w.byHash[h]
 		good := ok && bytes.Equal(v, a.slim)
+		if !good && x.old != nil {
+			if o, ok := x.old.byHash[h]; ok && bytes.Equal(v, o.slim) {
+				good = true
+			}
+		}
 		x.emit(tl.M{"op": "write", "item": []any{"acc", x.rankOf[h]}, "ok": good})
 		if !good {
 			x.violate(fmt.Sprintf("snap sync stored flat account %x that is not the target's", h[:6]), tl.M{"key": fmt.Sprintf("%x", k), "value": fmt.Sprintf("%x", v)})
@@ -142,6 +153,11 @@ func (x *run) observe(k, v []byte) {
 				rk = p
 			}
 		}
+		if !good && x.old != nil {
+			if o, ok := x.old.byHash[ah]; ok && bytes.Equal(v, o.slotVal[sh]) && len(v) > 0 {
+				good = true
+			}
+		}
 		x.emit(tl.M{"op": "write", "item": []any{fmt.Sprintf("s%d", x.rankOf[ah]), rk}, "ok": good})
 		if !good {
 			x.violate(fmt.Sprintf("snap sync stored storage slot %x/%x that is not the target's", ah[:6], sh[:6]), tl.M{"key": fmt.Sprintf("%x", k), "value": fmt.Sprintf("%x", v)})
@@ -149,6 +165,9 @@ func (x *run) observe(k, v []byte) {
 	case len(k) == 33 && k[0] == rawdb.CodePrefix[0]:
 		h := common.BytesToHash(k[1:])
 		_, ok := w.codes[h]
+		if !ok && x.old != nil {
+			_, ok = x.old.codes[h]
+		}
 		good := ok && crypto.Keccak256Hash(v) == h
 		x.emit(tl.M{"op": "write", "item": []any{"code", x.codeIdx[h]}, "ok": good})
 		if !good {
@@ -728,6 +747,7 @@ func main() {
 	maxAcc := flag.Int("accounts", 60, "maximum number of accounts of a target")
 	ttl := flag.Duration("ttl", 3*time.Second, "request timeout ceiling")
 	versions := flag.String("versions", "1", "syncer versions to use, e.g. 1 or 12")
+	npivot := flag.Int("pivot", 0, "number of additional snap/1 runs with a pivot move")
 	flag.Parse()
 	seed := int64(tl.EnvInt("VERIF_SEED", 1))
 	sum := tl.NewSummary("c47", *mode, seed)
@@ -749,6 +769,22 @@ func main() {
 		oneRun(x, version, scheme, seed*1000+int64(i), r.Intn(4))
 		x.wg.Wait() // late answers of delaying peers
 		w.chain.Stop()
+		sum.Traces++
+		sum.Evaluations++
+		sum.Distinct++
+		sum.Sample(x.desc)
+	}
+	for i := 0; i < *npivot; i++ {
+		sp := worldSpec{naccts: 10 + r.Intn(*maxAcc), maxCode: 300}
+		for k := 0; k < 2+r.Intn(5); k++ {
+			sp.storages = append(sp.storages, []int{0, 1, 3, 17, 60}[r.Intn(5)])
+		}
+		early, late := buildPivotWorlds(seed*1000+500+int64(i), sp, 6+r.Intn(20))
+		x := &run{tr: tr, sum: sum, r: tl.Rand(seed*104729 + int64(i)), ttl: *ttl}
+		x.keys, x.rankOf, x.codeIdx = nil, map[common.Hash]int{}, map[common.Hash]int{}
+		pivotRun(x, early, late, []string{rawdb.HashScheme, rawdb.PathScheme}[r.Intn(2)], seed*1000+500+int64(i))
+		x.wg.Wait()
+		late.chain.Stop()
 		sum.Traces++
 		sum.Evaluations++
 		sum.Distinct++
